@@ -149,9 +149,17 @@ def check(ai: int, fwd: bool) -> bool:
     signal.setitimer(signal.ITIMER_REAL, 20.0)
     try:
         # across 'succeeds': start with the member nobody precedes, continue along 'precedes'
+        with notrace():
+            qs_before = list(qs)
         res = xtuml.sort_reflexive(qs, 1, 'succeeds' if fwd else 'precedes')
         got = [insts.index(x) for x in res]
         ok_type = isinstance(res, xtuml.QuerySet)
+        # sorting is a query: the set handed in still holds its members in their order, and sorting that very set
+        # object a second time gives the same answer
+        qs_after = list(qs)
+        fuel[0] = 0
+        res2 = xtuml.sort_reflexive(qs, 1, 'succeeds' if fwd else 'precedes')
+        got2 = [insts.index(x) for x in res2]
     except Fuel:
         case(MODE, N, succ, sub, fwd, 'fuel')
         LAST_DIFF = ('does not terminate', succ, sub, fwd)
@@ -164,6 +172,10 @@ def check(ai: int, fwd: bool) -> bool:
     case(MODE, N, list(succ), sub, fwd)
     if not ok_type:
         LAST_DIFF = ('result type',); return False
+    if len(qs_after) != len(qs_before) or any(x is not y for x, y in zip(qs_after, qs_before)):
+        LAST_DIFF = ('sorting changed the set that was handed in', len(qs_before), len(qs_after)); return False
+    if got2 != got:
+        LAST_DIFF = ('sorting the same set object a second time gives another answer', got, got2); return False
     members = [k for k in range(N) if (sub >> k) & 1]
     if MODE == 'subset':
         # termination + no foreign / repeated members
